@@ -312,13 +312,13 @@ def run(tier, seed):
     import einx._src.frontend.backend as B
 
     chk = Check("C11", tier, seed, "other")
-    from ..kernels import c04_api_inner
+    from ..kernels import c04_api_inner, c10_snapshots
     from .. import frame
     ok, sites, failing = frame.rule_snapshot_copy()
     chk.add_rule("C11.S.snapshot_copy", ok, sites, failing, detail="'the choice does not depend on earlier lookups': a lookup that fails discards its snapshot - nothing it did may survive in a shared container")
     ok, sites, failing = frame.rule_lock_reads()
     chk.add_rule("C11.S.lock_reads", ok, sites, failing, detail="BackendRegistry.get & co. only delegate to the proved BackendRegistryState methods under the lock: no memo-first shortcut around the precedence chain")
-    for k in c11_registry.KERNELS + c11_names.KERNELS + [q for q in c04_api_inner.KERNELS if q.id == "C04.P.api_entry[run]"]:  # the entry point hands registry.get the backend argument and ALL raw tensor arguments
+    for k in c11_registry.KERNELS + c11_names.KERNELS + [q for q in c04_api_inner.KERNELS if q.id == "C04.P.api_entry[run]"] + [q for q in c10_snapshots.KERNELS if q.prop == "C11"]:  # the entry point hands registry.get the backend argument and ALL raw tensor arguments
         chk.add_kernel(run_kernel(k, tier))
     import einx
     api_cases = [("add", "a, a", [lambda shape: np.ones(shape), lambda shape: np.ones(shape)], {"a": 3}, "BackendResolutionError"), ("add", "a, ", [lambda shape: np.ones(shape), 2.0], {"a": 3}, "BackendResolutionError"),
